@@ -3,6 +3,24 @@ documentation and the property text (independent of the Coq reference Spec/RefSi
 compiled matcher). None in a pattern = any byte. Used by the C10 / C14 / C15 / C17 oracles."""
 
 HTTP, STUN, SSH, GHOST, RPC_TCP, RPC_UDP, SMB1, SMB2 = 1, 2, 3, 4, 5, 6, 7, 8
+
+
+def _ids_of_the_source():
+    """the numbers src/proto/mod.rs gives the protocols (internal, free to change), as gen_srcconsts.py read them from the
+    source text for this run; the published numbering above when the generated file is not there yet"""
+    import os, re
+    path = os.path.join(os.path.dirname(os.path.dirname(os.path.abspath(__file__))), "coq", "gen", "SrcConsts.v")
+    try:
+        txt = open(path).read()
+    except OSError:
+        return None
+    ids = {m.group(1): int(m.group(2)) for m in re.finditer(r"proto_mod__PROTO_([A-Z0-9_]+) : N := (\d+)\.", txt)}
+    names = ["HTTP", "STUN", "SSH", "GHOST", "RPC_TCP", "RPC_UDP", "SMB1", "SMB2"]
+    return [ids[n] for n in names] if all(n in ids for n in names) else None
+
+
+if _ids_of_the_source():
+    HTTP, STUN, SSH, GHOST, RPC_TCP, RPC_UDP, SMB1, SMB2 = _ids_of_the_source()
 NAMES = {None: "none", HTTP: "http", STUN: "stun", SSH: "ssh", GHOST: "ghost", RPC_TCP: "rpc-tcp", RPC_UDP: "rpc-udp",
          SMB1: "smb1", SMB2: "smb2"}
 VERBS = [b"GET", b"PUT", b"POST", b"HEAD", b"DELETE", b"CONNECT", b"OPTIONS", b"TRACE", b"PATCH"]
